@@ -157,16 +157,38 @@ Definition skip_op (o : orec) : bool :=
 
 Definition all_pending (rem : list (N * orec)) : bool := forallb (fun p => is_pending (snd p)) rem.
 
+(* pruning for histories whose put values are unique (the harness guarantees it; soundness
+   does not depend on it): placing write o now is hopeless when
+   - the register holds v and a completed get that returned v is still unplaced (v can never
+     be current again), or
+   - the register is absent, o is a put, a completed get that found nothing is still
+     unplaced and no delete is left that could empty the register again *)
+Definition reads_val (v : bytes) (p : N * orec) : bool :=
+  match o_kind (snd p), o_res (snd p) with KGet, RVal v' => beq v v' | _, _ => false end.
+Definition reads_none (p : N * orec) : bool :=
+  match o_kind (snd p), o_res (snd p) with KGet, RNotFound => true | _, _ => false end.
+Definition live_del (p : N * orec) : bool :=
+  match o_kind (snd p), o_res (snd p) with KDel, ROk | KDel, RPending => true | _, _ => false end.
+Definition blocked (s : rstate) (o : orec) (rem : list (N * orec)) : bool :=
+  if is_noop o then false else
+  match s with
+  | Some v => existsb (reads_val v) rem
+  | None => match o_kind o with
+            | KPut _ => existsb reads_none rem && negb (existsb live_del rem)
+            | _ => false
+            end
+  end.
+
 (* one level of the search: try every remaining operation that may come next; [rec] explores
-   the rest (it is [search d'] below) *)
+   the rest (it is [search d'] below); rem = rev pre ++ post is the whole level *)
 Fixpoint try_ops (rec : list (N * orec) -> N -> rstate -> N * cache -> verdict * (N * cache))
-  (mr : option N) (mask : N) (s : rstate) (pre post : list (N * orec)) (bc : N * cache)
+  (mr : option N) (mask : N) (s : rstate) (rem pre post : list (N * orec)) (bc : N * cache)
   {struct post} : verdict * (N * cache) :=
   match post with
   | [] => (VReject, (fst bc, cache_add (snd bc) mask s))
   | p :: post' =>
     let o := snd p in
-    if eligible mr o && negb (skip_op o) then
+    if eligible mr o && (negb (skip_op o) && negb (blocked s o rem)) then
       match reg_apply s o with
       | Some s' =>
         let r := rec (rev_append pre post') (N.lor mask (N.shiftl 1 (fst p))) s' bc in
@@ -175,11 +197,11 @@ Fixpoint try_ops (rec : list (N * orec) -> N -> rstate -> N * cache -> verdict *
         | VFuel => r
         | VReject =>
           if is_noop o then (VReject, (fst (snd r), cache_add (snd (snd r)) mask s))
-          else try_ops rec mr mask s (p :: pre) post' (snd r)
+          else try_ops rec mr mask s rem (p :: pre) post' (snd r)
         end
-      | None => try_ops rec mr mask s (p :: pre) post' bc
+      | None => try_ops rec mr mask s rem (p :: pre) post' bc
       end
-    else try_ops rec mr mask s (p :: pre) post' bc
+    else try_ops rec mr mask s rem (p :: pre) post' bc
   end.
 
 (* depth-first search. d: structural bound (number of operations + 1); rem: operations not
@@ -193,7 +215,7 @@ Fixpoint search (d : nat) (rem : list (N * orec)) (mask : N) (s : rstate) (bc : 
     if all_pending rem then (VAccept, bc) else
     if fst bc =? 0 then (VFuel, bc) else
     if cache_mem (snd bc) mask s then (VReject, bc) else
-    try_ops (search d') (min_ret rem) mask s [] rem (fst bc - 1, snd bc)
+    try_ops (search d') (min_ret rem) mask s rem [] rem (fst bc - 1, snd bc)
   end.
 
 Fixpoint number (i : N) (l : list orec) : list (N * orec) :=
